@@ -43,6 +43,7 @@ type nbRun struct {
 	lastDo  atomic.Value // time.Time
 	ccs     []*nbhttp.ClientConn
 	byID    sync.Map // id -> *cbRec
+	tainted sync.Map // ClientConn name / "Client": its FIFO is known to be shifted
 }
 
 func (n *nbRun) add(p *reqPlan, api string) *cbRec {
@@ -99,6 +100,16 @@ func (n *nbRun) callback(rec *cbRec) func(res *http.Response, conn net.Conn, err
 			g64, _ := strconv.ParseUint(gotID, 10, 32)
 			o, _ := e.ids.Load(uint32(g64))
 			sig, extra := "c10:client:callback-got-another-requests-response", ""
+			tkey := p.Conn
+			if rec.api == "Client.Do" {
+				tkey = "Client"
+			}
+			if _, was := n.tainted.LoadOrStore(tkey, true); was {
+				// once one response went to the wrong callback every later one on
+				// that connection object is shifted too: consequences, not findings
+				e.r.Count("client_mismatches_following_a_reported_one", 1)
+				return
+			}
 			if ov, ok := n.byID.Load(uint32(g64)); ok {
 				if orec := ov.(*cbRec); atomic.LoadInt32(&orec.errs) > 0 {
 					// a response that arrives after its own request was already failed
